@@ -1776,6 +1776,24 @@ check:
 	return NULL;
 }
 
+/* Open a file for reading.  fopen() succeeds on a directory, but
+ * reading from it fails and makes the flex scanner call exit().
+ */
+FILE *cfg_open_input(const char *filename)
+{
+	FILE *fp = fopen(filename, "r");
+#ifdef HAVE_SYS_STAT_H
+	struct stat st;
+
+	if (fp && fstat(fileno(fp), &st) == 0 && S_ISDIR(st.st_mode)) {
+		fclose(fp);
+		errno = EISDIR;
+		return NULL;
+	}
+#endif
+	return fp;
+}
+
 DLLIMPORT int cfg_parse(cfg_t *cfg, const char *filename)
 {
 	int ret;
@@ -1797,7 +1815,7 @@ DLLIMPORT int cfg_parse(cfg_t *cfg, const char *filename)
 	free(cfg->filename);
 	cfg->filename = fn;
 
-	fp = fopen(cfg->filename, "r");
+	fp = cfg_open_input(cfg->filename);
 	if (!fp)
 		return CFG_FILE_ERROR;
 
